@@ -437,6 +437,8 @@ def run(tier, replay=None):
             for k, ps in sorted(bykind.items()):
                 rnd.shuffle(ps)
                 sel += ps[:45]
+                # two-digit element positions (HI10 .. HI12, EB13, CAS19 ...) are few among the plans: always a handful of them
+                sel += [p for p in ps[45:] if p['ele'] >= 10][:6]
             plans = sel
         plans = plans + tails
         batch = []
